@@ -766,6 +766,7 @@ package query
 //@   ensures [undeclared-is-error] forall(q, 0, len(rs.Blocks), !curDeclared(rs.Blocks[q].Cursors, name.Literal)) ==> result1 != nil && result0 == nil && cursorServedBy == old(cursorServedBy)
 //@   loop 1 invariant 0 <= $i && $i <= len(rs.Blocks) && cursorServedBy == old(cursorServedBy) && forall(q, 0, $i, !curDeclared(rs.Blocks[q].Cursors, name.Literal))
 //@   modifies *
+//@   modifies cursorServedBy
 
 // a child block: one new (pooled, cleared) block in front of the parent's blocks, which are shared, not copied
 //@ func (*ReferenceScope).CreateChild
@@ -808,12 +809,14 @@ package query
 //@   ensures imagesWritten == old(imagesWritten) + 1
 //@   modifies imagesWritten
 //@ func (*Transaction).Commit
-//@   property C01 C10 C11 C02
+//@   property C01 C10 C11 C02 C20
 //@   requires tx != nil && swapsStarted == 0
+//@   ensures [commit-drops-the-table-cache] result == nil ==> cacheCleans > old(cacheCleans)
 //@   loop 1 invariant swapsStarted == 0
 //@   loop 2 invariant swapsStarted == 0
 //@   assert after call endingLineBreak: [ending-break-follows-the-file] !(exportOptions.Format == option.FIXED && exportOptions.SingleLine)
 //@   modifies *
+//@   modifies cacheCleans
 
 // C02: the dialect detected when the file was loaded is what the writer gets at COMMIT
 //@ func (*FileInfo).ExportOptions
@@ -861,6 +864,7 @@ package query
 //@   requires fn != nil && scope != nil && len(scope.Blocks) >= 1
 //@   ensures [releases-no-block-itself] blockReleased == old(blockReleased)
 //@   modifies * except F:query.ReferenceScope. E:query.BlockScope# F:query.VariableMap. E:map[string][]int# E:[]string#
+//@   modifies blockReleased
 
 //@ func (*UserDefinedFunction).Execute
 //@   property C15
@@ -869,6 +873,7 @@ package query
 //@   ensures [at-most-one-block-changes-hands] forallv(b1, int, forallv(b2, int, blockReleased[b1] != old(blockReleased[b1]) && blockReleased[b2] != old(blockReleased[b2]) ==> b1 == b2))
 //@   ensures [callers-blocks-not-released] forall(k, 0, len(scope.Blocks), !blockReleased[blockId(scope.Blocks[k])])
 //@   modifies *
+//@   modifies blockReleased
 
 // every iteration of WHILE starts in a cleared block: locals of the previous iteration are gone before the condition
 // is evaluated (ghost flag: set by statement execution, reset by ClearCurrentBlock)
@@ -1088,6 +1093,7 @@ package query
 //@   ensures [default-never-uses-the-exact-key] !old(flags.StrictEqual) ==> strictKeys == old(strictKeys)
 //@   loop 1 invariant flags.StrictEqual == old(flags.StrictEqual) && (old(flags.StrictEqual) ==> looseKeys == old(looseKeys)) && (!old(flags.StrictEqual) ==> strictKeys == old(strictKeys))
 //@   modifies *
+//@   modifies looseKeys, strictKeys
 //@ func Distinguish
 //@   property C04
 //@   ensures [strict-equal-never-uses-the-normalising-key] old(flags.StrictEqual) ==> looseKeys == old(looseKeys)
@@ -1095,6 +1101,7 @@ package query
 //@   loop 1 invariant flags.StrictEqual == old(flags.StrictEqual) && (old(flags.StrictEqual) ==> looseKeys == old(looseKeys)) && (!old(flags.StrictEqual) ==> strictKeys == old(strictKeys))
 //@   loop 2 invariant flags.StrictEqual == old(flags.StrictEqual) && (old(flags.StrictEqual) ==> looseKeys == old(looseKeys)) && (!old(flags.StrictEqual) ==> strictKeys == old(strictKeys))
 //@   modifies *
+//@   modifies looseKeys, strictKeys
 //@ func (*View).group$1
 //@   property C12 C13
 //@   requires 0 <= thIdx && thIdx < len(groupsList) && thIdx < len(groupKeysList)
@@ -1224,6 +1231,7 @@ package query
 //@   ensures [read-handler-released-before-return] !forUpdate && handlersOpened == old(handlersOpened) + 1 ==> handlersClosed >= old(handlersClosed) + 1
 //@   ensures [loaded-for-update-is-marked] err == nil && forUpdate && fileLoads == old(fileLoads) + 1 ==> view.FileInfo.ForUpdate
 //@   modifies *
+//@   modifies fileLoads, handlersOpened, handlersClosed
 
 // ---------------------------------------------------------------------------------------------
 // C02 (thin): the CSV/TSV writer of the go-text dependency encloses a field only when asked to or when the field contains
@@ -1309,4 +1317,119 @@ package query
 //@   requires forall(j, 0, len(partitionIndices), 0 <= partitionIndices[j] && partitionIndices[j] < len(view.RecordSet[index]))
 //@   ensures [cached-key-sits-in-its-column-slot] cacheRowOk(view, index)
 //@   loop 1 invariant cacheRowOk(view, index) && view.sortValuesInEachCell == old(view.sortValuesInEachCell) && view.RecordSet == old(view.RecordSet) && same(view.RecordSet[index], old(view.RecordSet[index]))
+//@   modifies *
+
+// ---------------------------------------------------------------------------------------------
+// C20 (second half): after COMMIT or ROLLBACK the next read sees the current file: both end by dropping the transaction's
+// table cache (ViewMap.Clean, counted by a ghost) on every path, whether or not the transaction changed anything.
+//@ ghost var cacheCleans int
+//@ func (ViewMap).Clean
+//@   trusted assumed: closes the handler of every cached view and empties the cache (sync.Map)
+//@   ghostset cacheCleans = cacheCleans + 1
+//@   modifies * except F:query.ReferenceScope. F:query.Transaction. F:query.View. F:query.FileInfo.
+//@ func (*Transaction).ReleaseResources
+//@   property C20
+//@   ensures [cache-dropped] cacheCleans == old(cacheCleans) + 1
+//@   modifies *
+//@   modifies cacheCleans
+//@ func (*Transaction).Rollback
+//@   property C20 C01
+//@   ensures [rollback-drops-the-table-cache] cacheCleans > old(cacheCleans)
+//@   modifies *
+//@   modifies cacheCleans
+
+// ---------------------------------------------------------------------------------------------
+// C01: ROLLBACK of a temporary table puts back the header and the rows of its restore point, whatever was changed.
+//@ func (Header).Copy
+//@   property C01
+//@   ensures [same-fields] len(result) == len(h) && fresh(result) && forall(k, 0, len(h), result[k].Column == h[k].Column && result[k].View == h[k].View && result[k].Number == h[k].Number && result[k].IsFromTable == h[k].IsFromTable)
+//@   loop 1 invariant 0 <= $i && $i <= len(h) && len(header) == len(h) && fresh(header)
+//@   loop 1 invariant forall(k, 0, $i, header[k].Column == h[k].Column && header[k].View == h[k].View && header[k].Number == h[k].Number && header[k].IsFromTable == h[k].IsFromTable)
+//@   loop 1 modifies header[*]
+//@   modifies nothing
+//@ func (*View).Restore
+//@   property C01
+//@   requires view != nil && view.FileInfo != nil
+//@   ensures [header-is-that-of-the-restore-point] len(view.Header) == len(view.FileInfo.restorePointHeader) &&
+//@       forall(k, 0, len(view.Header), view.Header[k].Column == view.FileInfo.restorePointHeader[k].Column && view.Header[k].View == view.FileInfo.restorePointHeader[k].View)
+//@   ensures [rows-are-those-of-the-restore-point] len(view.RecordSet) == len(view.FileInfo.restorePointRecordSet) &&
+//@       forall(k, 0, len(view.RecordSet), len(view.RecordSet[k]) == len(view.FileInfo.restorePointRecordSet[k]) && forall(q, 0, len(view.RecordSet[k]), view.RecordSet[k][q] == view.FileInfo.restorePointRecordSet[k][q]))
+//@   modifies view.Header, view.RecordSet, fresh
+
+// ---------------------------------------------------------------------------------------------
+// C17: ranking functions. Row k (0-based position in the ordered partition) gets:
+//   ROW_NUMBER  k + 1
+//   RANK        1 for the first row; afterwards either the rank of the row before it (when its sort key is equivalent to
+//               the key of the row that opened the current peer group) or its own position k + 1
+//   DENSE_RANK  the same with "one more than the row before it" instead of "its own position"
+// Without ORDER BY (no sort keys) every row opens a group.
+//@ spec def intAt(m map[int]value.Primary, row int) int64 = as(m[row], *value.Integer).value
+//@ spec def isIntAt(m map[int]value.Primary, row int) bool = has(m, row) && is(m[row], *value.Integer)
+//@ func (RowNumber).Execute
+//@   property C17 C19
+//@   safety
+//@   requires distinctRows(partition)
+//@   ensures [row-k-gets-k-plus-one] result1 == nil && forall(k, 0, len(partition), isIntAt(result0, partition[k]) && intAt(result0, partition[k]) == k + 1)
+//@   loop 1 invariant 0 <= $i && $i <= len(partition) && list != nil && fresh(list) && number == $i
+//@   loop 1 invariant forall(k, 0, $i, isIntAt(list, partition[k]) && intAt(list, partition[k]) == k + 1)
+//@   loop 1 modifies fresh
+//@   modifies *
+
+// peer groups as the ranking functions compute them: row k joins the group of the row before it when its sort key is
+// equivalent to the key of the row that opened that group, otherwise it opens a group of its own. opener(k) is the
+// position of the row that opened the group of row k. (Axioms: the definition, by recursion on k.)
+//@ spec func opener(p Partition, svs []SortValues, k int) int reads elems(p) elems(svs) elems(*SortValue) fields(SortValue)
+//@ axiom opener_zero: forallv(p, Partition, forallv(svs, []SortValues, opener(p, svs, 0) == 0))
+//@ axiom opener_step: forallv(p, Partition, forallv(svs, []SortValues, forall(k, 1, MaxInt64,
+//@     opener(p, svs, k) == ite(svsEq(svs[p[k]], svs[p[opener(p, svs, k - 1)]]), opener(p, svs, k - 1), k))))
+//@ axiom opener_range: forallv(p, Partition, forallv(svs, []SortValues, forall(k, 0, MaxInt64, 0 <= opener(p, svs, k) && opener(p, svs, k) <= k)))
+//@ lemma svs_eq_needs_a_key: forallv(a, SortValues, forallv(b, SortValues, svsEq(a, b) ==> b != nil))
+//@   reveal svsEq
+
+//@ spec def rankKeysWf(scope *ReferenceScope, p Partition) bool = scope != nil && len(scope.Records) >= 1 && scope.Records[0].view != nil && distinctRows(p) &&
+//@     (scope.Records[0].view.sortValuesInEachRecord != nil ==> forall(k, 0, len(p), 0 <= p[k] && p[k] < len(scope.Records[0].view.sortValuesInEachRecord) &&
+//@         scope.Records[0].view.sortValuesInEachRecord[p[k]] != nil &&
+//@         len(scope.Records[0].view.sortValuesInEachRecord[p[k]]) == len(scope.Records[0].view.sortValuesInEachRecord[p[0]]) &&
+//@         forall(q, 0, len(scope.Records[0].view.sortValuesInEachRecord[p[k]]), scope.Records[0].view.sortValuesInEachRecord[p[k]][q] != nil && scope.Records[0].view.sortValuesInEachRecord[p[k]][q].SerializedKey == nil)))
+
+//@ func (Rank).Execute
+//@   property C17 C19
+//@   safety
+//@   requires rankKeysWf(scope, partition)
+//@   ensures [without-order-every-row-ranks-by-position] result1 == nil && (scope.Records[0].view.sortValuesInEachRecord == nil ==>
+//@       forall(k, 0, len(partition), isIntAt(result0, partition[k]) && intAt(result0, partition[k]) == k + 1))
+//@   ensures [rank-is-the-position-of-the-group-opener] scope.Records[0].view.sortValuesInEachRecord != nil ==>
+//@       forall(k, 0, len(partition), isIntAt(result0, partition[k]) && intAt(result0, partition[k]) == opener(partition, scope.Records[0].view.sortValuesInEachRecord, k) + 1)
+//@   loop 1 invariant 0 <= $i && $i <= len(partition) && list != nil && fresh(list) && number == $i
+//@   loop 1 invariant scope.Records[0].view.sortValuesInEachRecord == nil ==> forall(k, 0, $i, isIntAt(list, partition[k]) && intAt(list, partition[k]) == k + 1)
+//@   loop 1 invariant scope.Records[0].view.sortValuesInEachRecord != nil && $i > 0 ==> rank == opener(partition, scope.Records[0].view.sortValuesInEachRecord, $i - 1) + 1 &&
+//@       same(currentRank, scope.Records[0].view.sortValuesInEachRecord[partition[rank - 1]])
+//@   loop 1 invariant scope.Records[0].view.sortValuesInEachRecord != nil && $i == 0 ==> currentRank == nil && rank == 0
+//@   loop 1 invariant scope.Records[0].view.sortValuesInEachRecord != nil ==>
+//@       forall(k, 0, $i, isIntAt(list, partition[k]) && intAt(list, partition[k]) == opener(partition, scope.Records[0].view.sortValuesInEachRecord, k) + 1)
+//@   loop 1 modifies fresh
+//@   modifies *
+
+// DENSE_RANK: the number of peer groups opened up to and including the row's own
+//@ spec func denseOf(p Partition, svs []SortValues, k int) int reads elems(p) elems(svs) elems(*SortValue) fields(SortValue)
+//@ axiom dense_zero: forallv(p, Partition, forallv(svs, []SortValues, denseOf(p, svs, 0) == 1))
+//@ axiom dense_step: forallv(p, Partition, forallv(svs, []SortValues, forall(k, 1, MaxInt64,
+//@     denseOf(p, svs, k) == denseOf(p, svs, k - 1) + ite(opener(p, svs, k) == k, 1, 0))))
+//@ axiom dense_range: forallv(p, Partition, forallv(svs, []SortValues, forall(k, 0, MaxInt64, 1 <= denseOf(p, svs, k) && denseOf(p, svs, k) <= k + 1)))
+//@ func (DenseRank).Execute
+//@   property C17 C19
+//@   safety
+//@   requires rankKeysWf(scope, partition)
+//@   ensures [without-order-every-row-opens-a-group] result1 == nil && (scope.Records[0].view.sortValuesInEachRecord == nil ==>
+//@       forall(k, 0, len(partition), isIntAt(result0, partition[k]) && intAt(result0, partition[k]) == k + 1))
+//@   ensures [dense-rank-counts-the-groups-opened-so-far] scope.Records[0].view.sortValuesInEachRecord != nil ==>
+//@       forall(k, 0, len(partition), isIntAt(result0, partition[k]) && intAt(result0, partition[k]) == denseOf(partition, scope.Records[0].view.sortValuesInEachRecord, k))
+//@   loop 1 invariant 0 <= $i && $i <= len(partition) && list != nil && fresh(list)
+//@   loop 1 invariant scope.Records[0].view.sortValuesInEachRecord == nil ==> rank == $i && forall(k, 0, $i, isIntAt(list, partition[k]) && intAt(list, partition[k]) == k + 1)
+//@   loop 1 invariant scope.Records[0].view.sortValuesInEachRecord != nil && $i > 0 ==> rank == denseOf(partition, scope.Records[0].view.sortValuesInEachRecord, $i - 1) &&
+//@       same(currentRank, scope.Records[0].view.sortValuesInEachRecord[partition[opener(partition, scope.Records[0].view.sortValuesInEachRecord, $i - 1)]])
+//@   loop 1 invariant scope.Records[0].view.sortValuesInEachRecord != nil && $i == 0 ==> currentRank == nil && rank == 0
+//@   loop 1 invariant scope.Records[0].view.sortValuesInEachRecord != nil ==>
+//@       forall(k, 0, $i, isIntAt(list, partition[k]) && intAt(list, partition[k]) == denseOf(partition, scope.Records[0].view.sortValuesInEachRecord, k))
+//@   loop 1 modifies fresh
 //@   modifies *
